@@ -125,11 +125,13 @@ Definition wf_globals (gs : list global_decl) : Prop := NoDup (map gkey (filter 
 Definition occ {A K : Type} (key : A -> K) (cmp : K -> K -> comparison) (k : K) (l : list A) : nat :=
   length (filter (fun y => match cmp (key y) k with Eq => true | _ => false end) l).
 
-(** ** index CONTENT that is merged in analysis order (known finding, C11's subject)
-    The super types of a class declared in several files are appended per declaration, in the
-    order in which [EmmyLuaAnalysis::update_files_by_uri] hands the files to the analyzer — the
-    iteration order of a [HashSet].  [parts] lists the declarations in analysis order. *)
+(** ** index CONTENT that is merged in analysis order
+    The super types (and the description) of a class declared in several files are merged per
+    declaration, in the order in which [EmmyLuaAnalysis::update_files_by_uri] hands the files
+    to the analyzer: the iteration order of a [HashSet], sorted by file id when
+    [Gen.C35_sort.update_files_sorted].  [parts] lists the declarations as the hash set
+    enumerates their files.  (Small content model; not part of the correspondence check.) *)
 Record class_part := { cp_file : N; cp_bases : list text }.
-Definition merged_bases (parts : list class_part) : list text := flat_map cp_bases parts.
-(** the known class: the type is declared in more than one file *)
-Definition known_split (parts : list class_part) : bool := Nat.ltb 1 (length parts).
+Definition merged_bases_f (sorted : bool) (parts : list class_part) : list text :=
+  flat_map cp_bases (sort_if sorted cp_file N.compare parts).
+Definition merged_bases := merged_bases_f update_files_sorted.
